@@ -197,13 +197,45 @@ func sharedStateScenario(r *Run) {
 		_ = octosql.ZeroValue
 		return nil
 	}
-	var last string
+	var last, lastFile string
 	var schedule []string
+	fileOf := func(key string) string {
+		switch {
+		case strings.Contains(key, "c29a.json"):
+			return "c29a.json"
+		case strings.Contains(key, "c29b.json"):
+			return "c29b.json"
+		}
+		return ""
+	}
 	ctl.OnRelease = func(key string) {
 		last = key[:strings.Index(key, ":")]
+		if f := fileOf(key); f != "" {
+			lastFile = f
+		}
 		schedule = append(schedule, key)
 	}
 	choose := func(en []string) int {
+		// While the sink is stalled the join does not drain its input channels. Releasing
+		// hand-offs of both files would fill both channels, and Go's select would then pick
+		// between them at random, outside the tape's control. So during a stall only the sink
+		// or the side that is currently feeding the join may proceed (the other side stays
+		// parked: a slow source, which is a legal schedule).
+		stalled := false
+		for _, k := range en {
+			if strings.HasPrefix(k, "sink:") {
+				stalled = true
+			}
+		}
+		if stalled {
+			var cand []int
+			for i, k := range en {
+				if strings.HasPrefix(k, "sink:") || (lastFile != "" && fileOf(k) == lastFile) {
+					cand = append(cand, i)
+				}
+			}
+			return cand[t.Draw(len(cand))]
+		}
 		if last != "" && t.Draw(100) < sticky {
 			for i := range en {
 				if strings.HasPrefix(en[i], last) {
